@@ -863,6 +863,8 @@ public:
 			}
 		}
 		if (fd->isOverloadedOperator()) o["oper"] = getOperatorSpelling(fd->getOverloadedOperator());
+		if (fd->getAccess() == AS_private) o["acc"] = "private";
+		else if (fd->getAccess() == AS_protected) o["acc"] = "protected";
 		o["kind"] = kind;
 		json::Array ps;
 		for (auto* p : fd->parameters()) {
